@@ -1,6 +1,63 @@
 //! cvmc check <ID> [--tier quick|thorough]   |   cvmc replay <file.json>   |   cvmc child ...
 use cvmc::report::Tier;
 
+/// Runs the explorer in a child process (same binary, CVMC_INNER=1) so that a process ABORT inside the
+/// library (std's unsafe-precondition checks, a non-unwinding panic, a wild access) is observed and judged
+/// instead of taking the check down with it: such an abort on an input the property covers is a violation
+/// of the property being explored. Anything the supervisor cannot attribute to the library (allocation
+/// failure, stack overflow, external kill) stays a machinery failure (exit 2).
+fn supervise(id: &str, tier: Tier) -> i32 {
+    use std::io::{BufRead, BufReader};
+    use std::process::{Command, Stdio};
+    let Some(idn) = cvmc::props::ALL.iter().find(|x| **x == id) else { eprintln!("unknown property id {id:?}"); return 2 };
+    let exe = std::env::current_exe().expect("current exe");
+    let mut child = match Command::new(exe).args(["check", id, "--tier", tier.name()]).env("CVMC_INNER", "1").stderr(Stdio::piped()).spawn() {
+        Ok(c) => c,
+        Err(e) => { eprintln!("MACHINERY: cannot start the explorer process: {e}"); return 2 }
+    };
+    let err = child.stderr.take().unwrap();
+    let tail = std::thread::spawn(move || {
+        let mut tail: std::collections::VecDeque<String> = Default::default();
+        for line in BufReader::new(err).lines().map_while(Result::ok) {
+            eprintln!("{line}");
+            if tail.len() >= 40 { tail.pop_front(); }
+            tail.push_back(line);
+        }
+        tail
+    });
+    let status = child.wait();
+    let tail: Vec<String> = tail.join().map(|t| t.into_iter().collect()).unwrap_or_default();
+    let status = match status { Ok(s) => s, Err(e) => { eprintln!("MACHINERY: waiting for the explorer failed: {e}"); return 2 } };
+    if let Some(code) = status.code() {
+        return code;
+    }
+    // killed by a signal
+    use std::os::unix::process::ExitStatusExt;
+    let sig = status.signal().unwrap_or(0);
+    let text = tail.join("\n");
+    let ub = text.contains("unsafe precondition(s) violated");
+    let nounwind = text.contains("panic in a function that cannot unwind") || text.contains("non-unwinding panic");
+    let lib_loc = tail.iter().rev().find_map(|l| l.find("/src/").filter(|_| !l.contains("/verif/mc/") && !l.contains("/rustc/") && !l.contains("/.cargo/")).map(|i| {
+        let rest = &l[i + 1..];
+        rest.split_whitespace().next().unwrap_or(rest).trim_end_matches(|c: char| c == ',' || c == ')').to_string()
+    }));
+    let machinery = text.contains("memory allocation of") || text.contains("has overflowed its stack") || sig == 9 || sig == 15;
+    if machinery || !(ub || nounwind || sig == 11 || sig == 4 || sig == 7 || sig == 6) || (sig == 6 && !(ub || nounwind)) {
+        eprintln!("MACHINERY: explorer for {id} was terminated by signal {sig} and the cause cannot be attributed to the library; no verdict");
+        return 2;
+    }
+    let what = if ub { "std unsafe-precondition check failed" } else if nounwind { "non-unwinding panic" } else { "fatal signal" };
+    let r = cvmc::report::Report::new(idn, tier);
+    r.violation(cvmc::report::Violation {
+        identity: format!("process abort inside constriction on an input the property covers | {} | {what}", lib_loc.clone().unwrap_or_else(|| "location unknown".into())),
+        detail: format!("the explorer process for {id} died on signal {sig}; last messages: {}", tail.iter().rev().take(6).rev().cloned().collect::<Vec<_>>().join(" / ")),
+        case: serde_json::json!({"kind": "none"}),
+    });
+    r.cap_hit(format!("exploration stopped by a process abort (signal {sig})"));
+    r.bound("the exploration did not complete: the explorer process aborted; nothing beyond the violation is claimed");
+    r.finish()
+}
+
 fn main() {
     let args: Vec<String> = std::env::args().collect();
     if args.len() < 2 {
@@ -30,7 +87,11 @@ fn main() {
                     other => { eprintln!("unknown argument {other}"); std::process::exit(2) }
                 }
             }
-            // A panic inside an explorer is a machinery failure, never a verdict.
+            if std::env::var("CVMC_INNER").is_err() {
+                std::process::exit(supervise(id, tier));
+            }
+            // A panic inside an explorer that is raised by harness code is a machinery failure, never a
+            // verdict; one raised inside constriction is judged by props::run (run_guarded).
             let r = std::panic::catch_unwind(|| cvmc::props::run(id, tier));
             match r {
                 Ok(Some(code)) => std::process::exit(code),
